@@ -10,6 +10,7 @@ import Grexv.Props.C13
 import Grexv.Lemmas.Stages
 import Grexv.Lemmas.EndToEnd
 import Grexv.Lemmas.RepPipeline
+import Grexv.Lemmas.RepElim
 
 /-!
 # C16 — every pipeline stage preserves the language; minimisation is minimal (stage theorems)
@@ -341,6 +342,20 @@ theorem minimize_exact_with_repetitions (cls : List Cluster) (hcls : ∀ cl ∈ 
     ∃ m, Dfa.minimize (Dfa.trie cls) Dfa.pickMin = some m ∧
       ∀ cl : Cluster, (∀ g ∈ cl, g.min = g.max) → cl ≠ [] → (m.CAccepts cl ↔ (Dfa.trie cls).CAccepts cl) :=
   Dfa.minimize_trie_r_exact cls hcls
+
+/-- **S7 with `-r`** the first candidate of `RegExp::from` under repetition conversion, for all inputs: the minimised automaton is
+acyclic (so the Kleene-star branch of the elimination is dead here too), the expression `Expression::from` computes from it denotes
+exactly the label sequences of its accepting paths, and every stored test case with a non-empty converted cluster is carried by one
+of them -/
+theorem first_candidate_with_repetitions (cfg : Config) (env : Env) (ws : List Str) (st : Stages) (h : regExpFrom cfg env ws = .ok st)
+    (hrep : cfg.rep = true) (hseg : ∀ w ∈ st.sorted, ∀ p ∈ env.segOf w, p ≠ []) :
+    (∀ c w, Dfa.Path st.minimized c w c → w = []) ∧
+    (∀ w : Word, olang (((List.range st.minimized.nodes).reverse.foldl (elimStep cfg)
+        (elimInit cfg st.minimized st.minimized.dfs)).b.get 0) w ↔ st.minimized.LangFrom st.minimized.init w) ∧
+    ∀ pc ∈ preClusters cfg env st.sorted, convertRepetitions cfg pc ≠ [] →
+      ∃ w, olang (((List.range st.minimized.nodes).reverse.foldl (elimStep cfg)
+        (elimInit cfg st.minimized st.minimized.dfs)).b.get 0) w ∧ Dfa.CarriesL w (convertRepetitions cfg pc) :=
+  rep_first_candidate cfg env ws st h hrep hseg
 
 /-- the automaton on which the unrepaired refinement merged two states that differ: states 1 (after `x`) and 3 (after `y`) are in
 different classes now -/
